@@ -30,7 +30,7 @@ REQUIRED = ["route.list", "route.one-by-one", "route.scenario", "route.xml", "ro
             "kind.adjacent", "kind.crossing", "kind.nested", "provenance.placed-angle-0", "provenance.placed",
             "provenance.translate_rotate", "provenance.deepcopy", "provenance.after-setters",
             "provenance.source-object-used-before",
-            "obstacle-absent-at-query-time", "contains_points.single-point", "route.deferred-index", "route.pending-index", "route.merged", "qshape.u-polygon-around-lanelet-end", "route.deferred-remove",
+            "obstacle-absent-at-query-time", "contains_points.single-point", "route.deferred-index", "route.pending-index", "route.merged", "qshape.u-polygon-around-lanelet-end", "empty-network.constructor", "empty-network.fresh-scenario", "empty-network.emptied-by-removal", "qshape.group-near-member-then-member-on-lanelet", "obstacle-with-group-shape", "contract.find_lanelet_by_shape/ShapeGroup", "route.deferred-remove",
             "route.translate-before-index"]
 ASSUMPTIONS = ["lanelet polygons are simple (strips with strictly increasing abscissa)",
                "circle queries within 0.2% of the radius of a boundary are not judged (shapely discs are 64-gons)"]
@@ -254,6 +254,10 @@ def run(ctx):
                 elif isinstance(shp, Circle):
                     o = StaticObstacle(500 + j, ObstacleType.PEDESTRIAN, Circle(shp.radius),
                                        InitialState(position=shp.center, orientation=0.0, time_step=0))
+                elif isinstance(shp, ShapeGroup):
+                    o = StaticObstacle(500 + j, ObstacleType.TRUCK, shp,
+                                       InitialState(position=np.array([0.0, 0.0]), orientation=0.0, time_step=0))
+                    ctx.feature("obstacle-with-group-shape")
                 else:
                     continue
                 obstacles.append(o)
@@ -325,6 +329,48 @@ def run(ctx):
                                       {"route": label})
                 except Exception as e:  # noqa
                     ctx.violation("C06/map_obstacles_to_lanelets/raises-%s" % type(e).__name__, repr(e), {"route": label})
+
+    # ------------------------------------------------------------------------- networks without any lanelet
+    # a network that holds no lanelet (yet / any more) answers every look-up with "nothing" -- however it came to be empty
+    from commonroad.scenario.lanelet import LaneletNetwork
+    from commonroad.scenario.scenario import Scenario
+    for i, rng in ctx.cases("empty-networks", ctx.pick(8, 200)):
+        how = ["constructor", "fresh-scenario", "from-empty-list", "emptied-by-removal"][i % 4]
+        if how == "constructor":
+            net = LaneletNetwork()
+        elif how == "fresh-scenario":
+            net = Scenario(0.1).lanelet_network
+        elif how == "from-empty-list":
+            net = LaneletNetwork.create_from_lanelet_list([])
+        else:
+            ls_, _ = lattice.gen_lanelets(rng, nmax=3)
+            net = LaneletNetwork.create_from_lanelet_list(ls_)
+            for la_ in list(net.lanelets):
+                net.remove_lanelet(la_.lanelet_id)
+        ctx.feature("empty-network." + how)
+        G = Gen(rng)
+        pts_ = [np.array([rng.uniform(-5, 5), rng.uniform(-5, 5)]) for _ in range(rng.randint(1, 3))]
+        shp_ = [Rectangle(2.0, 1.0, pts_[0], 0.3), Circle(1.5, pts_[0]), Polygon(np.array([[0.0, 0.0], [2.0, 0.0], [0.0, 2.0]])),
+                ShapeGroup([Rectangle(1.0, 1.0), Circle(1.0, np.array([3.0, 0.0]))])]
+        ob_ = StaticObstacle(5, ObstacleType.CAR, Rectangle(2.0, 1.0), InitialState(position=pts_[0], orientation=0.0,
+                                                                                  time_step=0))
+        calls = [("find_lanelet_by_position", lambda: net.find_lanelet_by_position(pts_), [[] for _ in pts_])] + \
+                [("find_lanelet_by_shape", (lambda s_=s_: net.find_lanelet_by_shape(s_)), []) for s_ in shp_] + \
+                [("map_obstacles_to_lanelets", lambda: net.map_obstacles_to_lanelets([ob_]), {}),
+                 ("filter_obstacles_in_network", lambda: net.filter_obstacles_in_network([ob_]), [])]
+        for nm_, fn_, exp_ in calls:
+            ctx.evaluation()
+            ctx.fingerprint(["empty", how, nm_, i])
+            try:
+                got_ = fn_()
+            except Exception as e:  # noqa
+                ctx.violation("C06/%s/raises-%s/network-without-lanelets/%s" % (nm_, type(e).__name__, how), repr(e)[:200],
+                              {"how": how})
+                continue
+            if [list(x) for x in got_] != exp_ if isinstance(exp_, list) and exp_ and isinstance(exp_[0], list) else \
+                    (dict(got_) if isinstance(exp_, dict) else list(got_)) != exp_:
+                ctx.violation("C06/%s/non-empty-answer-of-a-network-without-lanelets/%s" % (nm_, how), repr(got_)[:200],
+                              {"how": how})
 
     # ------------------------------------------------------------------------- shape coherence (no network involved)
     import shapely.geometry as sg
